@@ -833,6 +833,11 @@ func (r *R) errorNeverSwallowed(rule string, fn *ssa.Function, site *ssa.Call, w
 // boolean phis take the value of the edge they were entered through and `!x` is evaluated, so a condition
 // that was computed earlier (isArr := a == K1 || a == K2 … if cond && !isArr) is still decided.
 func worldSearch(fn *ssa.Function, from ssa.Instruction, target ssax.Matcher, atom func(ssa.Value) (bool, bool)) (ssa.Instruction, []int, bool) {
+	return worldSearchAvoid(fn, from, target, nil, atom)
+}
+
+// worldSearchAvoid is worldSearch with paths cut at instructions matching avoid.
+func worldSearchAvoid(fn *ssa.Function, from ssa.Instruction, target, avoid ssax.Matcher, atom func(ssa.Value) (bool, bool)) (ssa.Instruction, []int, bool) {
 	type state struct {
 		b *ssa.BasicBlock
 		k string
@@ -879,7 +884,7 @@ func worldSearch(fn *ssa.Function, from ssa.Instruction, target ssax.Matcher, at
 				hit, hitPath = in, path
 				return
 			}
-			if ssax.IsNoReturn(in) || ssax.IsReturn(in) {
+			if ssax.IsNoReturn(in) || ssax.IsReturn(in) || avoid != nil && avoid(in) {
 				return
 			}
 		}
